@@ -38,5 +38,5 @@ DELIVERABLES (all in {wt}/out/):
   patch.diff   -- `git -C {wt}/src diff` of your library change ONLY (no test/demo files, no build dir)
   demo.cpp     -- the demonstration, plus run_demo.sh that builds and runs it against {wt}/src as it currently is and exits 0 iff the property held
   meta.json    -- {{"property": "{p['id']}", "summary": one sentence, "what_it_needs_to_manifest": ..., "files_changed": [...], "demo_result_with_change": ..., "demo_result_without_change": ..., "test_suite_with_change": "N passed / names of any failures", "reproduction_rate": ...}}
-Before finishing: verify that run_demo.sh fails with the patch applied and passes after `git -C {wt}/src stash` (then `git stash pop` so the worktree is left WITH the change applied), and that patch.diff applies cleanly to a clean checkout (`git -C {wt}/src stash; git -C {wt}/src apply --check {wt}/out/patch.diff; git -C {wt}/src stash pop`).
+Before finishing: verify that run_demo.sh fails with the patch applied and passes without it. NEVER use `git stash` (the stash is shared by all worktrees of this repository and other people work in sibling worktrees concurrently); to switch use `git -C {wt}/src apply -R {wt}/out/patch.diff` (remove your change) and `git -C {wt}/src apply {wt}/out/patch.diff` (put it back), and leave the worktree WITH the change applied. Also verify `git -C {wt}/src diff` shows only your own change and that patch.diff applies cleanly to the clean checkout.
 Leave the worktree in place. In your final message report: the summary, the diff, the demo results with/without the change, and the test-suite result. If you cannot find a change that satisfies (a)-(c) after a serious attempt, say so and explain what you tried; do not fake results.""")
